@@ -105,9 +105,10 @@ def r2_switch(ctx, rep, R='C15.R2'):
 def _suffix_test(e, fvar, consts):
     """True if *e* tests that the file name ends in a compiled suffix (a constant ⊆ {.pyc,.pyo})"""
     def const_set(x):
-        if isinstance(x, (ast.Tuple, ast.List, ast.Set)):
-            vals = [y.value for y in x.elts if isinstance(y, ast.Constant)]
-            return set(vals) if len(vals) == len(x.elts) else None
+        from .common import literal_elements
+        vals = literal_elements(x)
+        if vals is not None:
+            return set(vals)
         if isinstance(x, ast.Constant) and isinstance(x.value, str):
             return {x.value}
         if isinstance(x, ast.Name) and x.id in consts:
